@@ -436,6 +436,167 @@ package adaptation
 //@   loop 3 invariant forall k string :: !visited(k) ==> has(annL(r), k) == pre(has(annL(r), k)) && annL(r)[k] == pre(annL(r)[k]) && has(annV(r), k) == pre(has(annV(r), k)) && annV(r)[k] == pre(annV(r)[k])
 //@   loop 3 invariant forall j string :: !visited(j) && !(markedK(j) && (exists k string :: visited(k) && j == "-" + k)) ==> has(annR(r), j) == pre(has(annR(r), j)) && annR(r)[j] == pre(annR(r)[j])
 
+// ---------------------------------------------------------------------------
+// Devices (result.go: adjustDevices): ownership, release on removal, view normalisation
+// ---------------------------------------------------------------------------
+//@ pure noNilLD(s []*LinuxDevice) = forall i int :: 0 <= i && i < len(s) ==> allocated(s[i])
+//@ pure rmD(ds []*LinuxDevice, p string) = exists j int :: 0 <= j && j < len(ds) && ds[j].Path == "-" + p
+//@ pure setD(ds []*LinuxDevice, p string) = exists j int :: 0 <= j && j < len(ds) && ds[j].Path == p && !markedK(p)
+//@ pure inD(ds []*LinuxDevice, x *LinuxDevice) = exists j int :: 0 <= j && j < len(ds) && ds[j] == x
+//@ pure devD(r *result) = reply(r).Linux.Devices
+//@ pure devW(r *result) = view(r).Linux.Devices
+//@ pure devL(r *result) = ledger(r).devices
+//@ pure ownedD(r *result, p string) = has(r.owners, cid(r)) && has(devL(r), p)
+// representation invariant tying the ledger to the collected adjustment: a device path has an
+// owner only while a device with that path is in the collected list
+//@ pure devCons(r *result) = forall p string :: ownedD(r, p) ==> (exists j int :: 0 <= j && j < len(devD(r)) && devD(r)[j].Path == p)
+//@ pure ledgerStep(r *result) = (pre(has(r.owners, cid(r))) ==> has(r.owners, cid(r)) && ledger(r) == pre(ledger(r))) && (!pre(has(r.owners, cid(r))) && has(r.owners, cid(r)) ==> prefresh(ledger(r)))
+
+//@ func result.adjustDevices
+//@   props C01 C02 C03 C04
+//@   flag append-lemmas
+//@   requires wfCreate(r) && noNilLD(devices) && noNilLD(devD(r)) && noNilLD(devW(r))
+//@   requires sep(base(devices), base(devD(r))) && sep(base(devices), base(devW(r))) && sep(base(devD(r)), base(devW(r)))
+//@   modifies @writes
+//@   ensures [noop]   len(devices) == 0 ==> result == nil && devD(r) == old(devD(r)) && devW(r) == old(devW(r))
+//@   ensures [owned]    result == nil ==> (forall j int :: 0 <= j && j < len(devices) && !markedK(devices[j].Path) ==> ownedD(r, devices[j].Path) && devL(r)[devices[j].Path] == plugin)
+//@   ensures [released] old(devCons(r)) ==> (forall p string :: rmD(devices, p) && ownedD(r, p) ==> devL(r)[p] == plugin)
+//@   ensures [noblame]  forall p string :: ownedD(r, p) && !old(ownedD(r, p)) ==> devL(r)[p] == plugin
+//@   ensures [lkept]    forall p string :: ownedD(r, p) && old(ownedD(r, p)) && devL(r)[p] != plugin ==> devL(r)[p] == old(devL(r)[p])
+//@   ensures [c01]      result == nil ==> (forall j int :: 0 <= j && j < len(devices) && !markedK(devices[j].Path) && !rmD(devices, devices[j].Path) ==> !old(ownedD(r, devices[j].Path)))
+//@   ensures [view.new] result == nil ==> (forall j int :: 0 <= j && j < len(devices) && !markedK(devices[j].Path) ==> inD(devW(r), devices[j]))
+//@   ensures [view.alloc] result == nil ==> (forall i int :: 0 <= i && i < len(devW(r)) ==> allocated(devW(r)[i]))
+//@   ensures [view.gone.rm] @thorough result == nil ==> (forall i int, k int :: 0 <= i && i < len(devW(r)) && 0 <= k && k < len(devices) && (forall j int :: 0 <= j && j < len(devices) ==> devW(r)[i] != devices[j]) ==> devices[k].Path != "-" + devW(r)[i].Path)
+//@   ensures [view.gone.set] result == nil ==> (forall i int :: 0 <= i && i < len(devW(r)) && (forall j int :: 0 <= j && j < len(devices) ==> devW(r)[i] != devices[j]) ==> !setD(devices, devW(r)[i].Path))
+//@   ensures [reply.new] result == nil ==> (forall j int :: 0 <= j && j < len(devices) && !markedK(devices[j].Path) ==> inD(devD(r), devices[j]))
+//@   ensures [reply.gone] result == nil ==> (forall i int :: 0 <= i && i < len(devD(r)) ==> allocated(devD(r)[i]) && ((forall j int :: 0 <= j && j < len(devices) ==> devD(r)[i] != devices[j]) ==> !rmD(devices, devD(r)[i].Path)))
+//@   ensures [cons]     old(devCons(r)) ==> devCons(r)
+// loop 1: split the response into removals (del), sets (mod) and the list of sets in order (add)
+//@   loop 1 modifies elems(add), map(del), map(mod)
+//@   loop 1 invariant 0 <= idx + 1 && idx + 1 <= len(devices) && del != nil && mod != nil && del != mod
+//@   loop 1 invariant (base(add) == base(entry(add)) || prefresh(add)) && sep(base(add), base(devices)) && sep(base(add), base(devD(r))) && sep(base(add), base(devW(r)))
+//@   loop 1 invariant forall j int :: 0 <= j && j <= idx ==> (forall p string :: devices[j].Path == "-" + p ==> has(del, p))
+//@   loop 1 invariant forall j int :: 0 <= j && j <= idx && !markedK(devices[j].Path) ==> has(mod, devices[j].Path)
+//@   loop 1 invariant forall i int :: 0 <= i && i < len(add) ==> allocated(add[i]) && !markedK(add[i].Path) && has(mod, add[i].Path) && inD(devices, add[i])
+//@   loop 1 invariant forall j int :: 0 <= j && j <= idx && !markedK(devices[j].Path) ==> inD(add, devices[j])
+//@   loop 1 invariant forall p string :: has(del, p) ==> (exists j int :: 0 <= j && j <= idx && devices[j].Path == "-" + p)
+//@   loop 1 invariant forall p string :: has(mod, p) ==> (exists j int :: 0 <= j && j <= idx && devices[j].Path == p && !markedK(p))
+// loop 2: drop removed devices from the collected list and release their owners
+//@   loop 2 modifies elems(cleared), mapkey(r.owners, cid(r)), map(devL(r))
+//@   loop 2 invariant 0 <= idx + 1 && idx + 1 <= len(devD(r)) && wfCreate(r) && cid(r) == old(cid(r)) && id == cid(r) && create == r.request.create && devD(r) == pre(devD(r)) && devW(r) == pre(devW(r))
+//@   loop 2 invariant ledgerStep(r) && (pre(has(r.owners, cid(r))) ==> devL(r) == pre(devL(r))) && (!pre(has(r.owners, cid(r))) && has(r.owners, cid(r)) ==> zeroed(ledger(r)))
+//@   loop 2 invariant (base(cleared) == base(entry(cleared)) || prefresh(cleared)) && sep(base(cleared), base(devices)) && sep(base(cleared), base(devD(r))) && sep(base(cleared), base(devW(r))) && sep(base(cleared), base(add))
+//@   loop 2 invariant forall i int :: 0 <= i && i < len(cleared) ==> allocated(cleared[i]) && !has(del, cleared[i].Path)
+//@   loop 2 invariant forall j int :: 0 <= j && j <= idx && has(del, devD(r)[j].Path) ==> !ownedD(r, devD(r)[j].Path)
+//@   loop 2 invariant forall j int :: 0 <= j && j <= idx && !has(del, devD(r)[j].Path) ==> inD(cleared, devD(r)[j])
+//@   loop 2 invariant forall p string :: ownedD(r, p) ==> pre(ownedD(r, p)) && devL(r)[p] == pre(devL(r)[p])
+//@   loop 2 invariant forall p string :: pre(ownedD(r, p)) && !has(del, p) ==> ownedD(r, p)
+//@   loop 2 invariant old(devCons(r)) ==> devCons(r)
+// loop 3: drop removed and re-set devices from the view shown to later plugins
+//@   loop 3 modifies elems(cleared)
+//@   loop 3 invariant 0 <= idx + 1 && idx + 1 <= len(devW(r))
+//@   loop 3 invariant (base(cleared) == base(entry(cleared)) || prefresh(cleared)) && sep(base(cleared), base(devices)) && sep(base(cleared), base(devD(r))) && sep(base(cleared), base(devW(r))) && sep(base(cleared), base(add))
+//@   loop 3 invariant forall i int :: 0 <= i && i < len(cleared) ==> allocated(cleared[i]) && !has(del, cleared[i].Path) && !has(mod, cleared[i].Path)
+//@   loop 3 invariant forall j int :: 0 <= j && j <= idx && !has(del, devW(r)[j].Path) && !has(mod, devW(r)[j].Path) ==> inD(cleared, devW(r)[j])
+//@   loop 3 invariant old(devCons(r)) ==> devCons(r)
+// loop 4: claim and append the sets
+//@   loop 4 modifies mapkey(r.owners, cid(r)), ledger(r).devices, map(devL(r)), reply(r).Linux.Devices, elems(devD(r))
+//@   loop 4 invariant 0 <= idx + 1 && idx + 1 <= len(add) && wfCreate(r) && cid(r) == old(cid(r)) && id == cid(r) && create == r.request.create
+//@   loop 4 invariant ledgerStep(r) && (pre(has(r.owners, cid(r))) && pre(devL(r)) != nil ==> devL(r) == pre(devL(r)))
+//@   loop 4 invariant has(r.owners, cid(r)) && devL(r) != nil && !(pre(has(r.owners, cid(r))) && pre(devL(r)) == devL(r)) ==> prefresh(devL(r))
+//@   loop 4 invariant (base(devD(r)) == pre(base(devD(r))) || prefresh(devD(r))) && sep(base(devD(r)), base(add)) && sep(base(devD(r)), base(devW(r))) && sep(base(devD(r)), base(devices))
+//@   loop 4 invariant len(devD(r)) == pre(len(devD(r))) + idx + 1 && (forall k int :: 0 <= k && k < pre(len(devD(r))) ==> devD(r)[k] == pre(devD(r)[k])) && (forall i int :: 0 <= i && i <= idx ==> devD(r)[pre(len(devD(r))) + i] == add[i])
+//@   loop 4 invariant forall p string :: pre(ownedD(r, p)) ==> ownedD(r, p) && devL(r)[p] == pre(devL(r)[p])
+//@   loop 4 invariant forall p string :: ownedD(r, p) && !pre(ownedD(r, p)) ==> devL(r)[p] == plugin
+//@   loop 4 invariant old(devCons(r)) ==> devCons(r)
+//@   loop 4 invariant forall j int :: 0 <= j && j < len(devices) && !markedK(devices[j].Path) && (exists i int :: 0 <= i && i <= idx && add[i] == devices[j]) ==> inD(devD(r), devices[j])
+//@   loop 4 invariant forall i int :: 0 <= i && i <= idx ==> ownedD(r, add[i].Path) && devL(r)[add[i].Path] == plugin && !pre(ownedD(r, add[i].Path))
+
+// ---------------------------------------------------------------------------
+// Mounts (result.go: adjustMounts): ownership, release on removal, view normalisation
+// ---------------------------------------------------------------------------
+//@ pure noNilM(s []*Mount) = forall i int :: 0 <= i && i < len(s) ==> allocated(s[i])
+//@ pure rmM(ds []*Mount, p string) = exists j int :: 0 <= j && j < len(ds) && ds[j].Destination == "-" + p
+//@ pure setM(ds []*Mount, p string) = exists j int :: 0 <= j && j < len(ds) && ds[j].Destination == p && !markedK(p)
+//@ pure inM(ds []*Mount, x *Mount) = exists j int :: 0 <= j && j < len(ds) && ds[j] == x
+//@ pure mntD(r *result) = reply(r).Mounts
+//@ pure mntW(r *result) = view(r).Mounts
+//@ pure mntL(r *result) = ledger(r).mounts
+//@ pure ownedM(r *result, p string) = has(r.owners, cid(r)) && has(mntL(r), p)
+// representation invariant tying the ledger to the collected adjustment: a mount path has an
+// owner only while a mount with that path is in the collected list
+//@ pure mntCons(r *result) = forall p string :: ownedM(r, p) ==> (exists j int :: 0 <= j && j < len(mntD(r)) && mntD(r)[j].Destination == p)
+
+//@ func result.adjustMounts
+//@   props C01 C02 C03 C04
+//@   flag append-lemmas
+//@   requires wfCreate(r) && noNilM(mounts) && noNilM(mntD(r)) && noNilM(mntW(r))
+//@   requires sep(base(mounts), base(mntD(r))) && sep(base(mounts), base(mntW(r))) && sep(base(mntD(r)), base(mntW(r)))
+//@   modifies @writes
+//@   ensures [noop]   len(mounts) == 0 ==> result == nil && mntD(r) == old(mntD(r)) && mntW(r) == old(mntW(r))
+//@   ensures [owned]    result == nil ==> (forall j int :: 0 <= j && j < len(mounts) && !markedK(mounts[j].Destination) ==> ownedM(r, mounts[j].Destination) && mntL(r)[mounts[j].Destination] == plugin)
+//@   ensures [released] old(mntCons(r)) ==> (forall p string :: rmM(mounts, p) && ownedM(r, p) ==> mntL(r)[p] == plugin)
+//@   ensures [noblame]  forall p string :: ownedM(r, p) && !old(ownedM(r, p)) ==> mntL(r)[p] == plugin
+//@   ensures [lkept]    forall p string :: ownedM(r, p) && old(ownedM(r, p)) && mntL(r)[p] != plugin ==> mntL(r)[p] == old(mntL(r)[p])
+//@   ensures [c01]      result == nil ==> (forall j int :: 0 <= j && j < len(mounts) && !markedK(mounts[j].Destination) && !rmM(mounts, mounts[j].Destination) ==> !old(ownedM(r, mounts[j].Destination)))
+//@   ensures [view.new] result == nil ==> (forall j int :: 0 <= j && j < len(mounts) && !markedK(mounts[j].Destination) ==> inM(mntW(r), mounts[j]))
+//@   ensures [view.alloc] result == nil ==> (forall i int :: 0 <= i && i < len(mntW(r)) ==> allocated(mntW(r)[i]))
+//@   ensures [view.gone.rm] @thorough result == nil ==> (forall i int, k int :: 0 <= i && i < len(mntW(r)) && 0 <= k && k < len(mounts) && (forall j int :: 0 <= j && j < len(mounts) ==> mntW(r)[i] != mounts[j]) ==> mounts[k].Destination != "-" + mntW(r)[i].Destination)
+//@   ensures [view.gone.set] @thorough result == nil ==> (forall i int :: 0 <= i && i < len(mntW(r)) && (forall j int :: 0 <= j && j < len(mounts) ==> mntW(r)[i] != mounts[j]) ==> !setM(mounts, mntW(r)[i].Destination))
+//@   ensures [reply.new] result == nil ==> (forall j int :: 0 <= j && j < len(mounts) && !markedK(mounts[j].Destination) ==> inM(mntD(r), mounts[j]))
+//@   ensures [fwd] @thorough result == nil ==> (forall p string :: rmM(mounts, p) && !setM(mounts, p) ==> (exists i int :: 0 <= i && i < len(mntD(r)) && mntD(r)[i].Destination == "-" + p))
+//@   ensures [cons]     old(mntCons(r)) ==> mntCons(r)
+// loop 1: split the response into removals (del), sets (mod) and the list of sets in order (add)
+//@   loop 1 modifies elems(add), map(del), map(mod)
+//@   loop 1 invariant 0 <= idx + 1 && idx + 1 <= len(mounts) && del != nil && mod != nil && del != mod
+//@   loop 1 invariant (base(add) == base(entry(add)) || prefresh(add)) && sep(base(add), base(mounts)) && sep(base(add), base(mntD(r))) && sep(base(add), base(mntW(r)))
+//@   loop 1 invariant forall j int :: 0 <= j && j <= idx ==> (forall p string :: mounts[j].Destination == "-" + p ==> has(del, p))
+//@   loop 1 invariant forall j int :: 0 <= j && j <= idx && !markedK(mounts[j].Destination) ==> has(mod, mounts[j].Destination)
+//@   loop 1 invariant forall i int :: 0 <= i && i < len(add) ==> allocated(add[i]) && !markedK(add[i].Destination) && has(mod, add[i].Destination) && inM(mounts, add[i])
+//@   loop 1 invariant forall j int :: 0 <= j && j <= idx && !markedK(mounts[j].Destination) ==> inM(add, mounts[j])
+//@   loop 1 invariant forall p string :: has(del, p) ==> (exists j int :: 0 <= j && j <= idx && mounts[j].Destination == "-" + p)
+//@   loop 1 invariant forall p string :: has(mod, p) ==> (exists j int :: 0 <= j && j <= idx && mounts[j].Destination == p && !markedK(p))
+//@   loop 1 invariant forall p string :: has(del, p) ==> allocated(del[p]) && inM(mounts, del[p]) && del[p].Destination == "-" + p
+// loop 2: drop removed mounts from the collected list and release their owners
+//@   loop 2 modifies elems(cleared), mapkey(r.owners, cid(r)), map(mntL(r))
+//@   loop 2 invariant 0 <= idx + 1 && idx + 1 <= len(mntD(r)) && wfCreate(r) && cid(r) == old(cid(r)) && id == cid(r) && create == r.request.create && mntD(r) == pre(mntD(r)) && mntW(r) == pre(mntW(r))
+//@   loop 2 invariant ledgerStep(r) && (pre(has(r.owners, cid(r))) ==> mntL(r) == pre(mntL(r))) && (!pre(has(r.owners, cid(r))) && has(r.owners, cid(r)) ==> zeroed(ledger(r)))
+//@   loop 2 invariant (base(cleared) == base(entry(cleared)) || prefresh(cleared)) && sep(base(cleared), base(mounts)) && sep(base(cleared), base(mntD(r))) && sep(base(cleared), base(mntW(r))) && sep(base(cleared), base(add))
+//@   loop 2 invariant forall i int :: 0 <= i && i < len(cleared) ==> allocated(cleared[i]) && !has(del, cleared[i].Destination)
+//@   loop 2 invariant forall j int :: 0 <= j && j <= idx && has(del, mntD(r)[j].Destination) ==> !ownedM(r, mntD(r)[j].Destination)
+//@   loop 2 invariant forall j int :: 0 <= j && j <= idx && !has(del, mntD(r)[j].Destination) ==> inM(cleared, mntD(r)[j])
+//@   loop 2 invariant forall p string :: ownedM(r, p) ==> pre(ownedM(r, p)) && mntL(r)[p] == pre(mntL(r)[p])
+//@   loop 2 invariant forall p string :: pre(ownedM(r, p)) && !has(del, p) ==> ownedM(r, p)
+//@   loop 2 invariant old(mntCons(r)) ==> mntCons(r)
+// loop 3: drop removed and re-set mounts from the view shown to later plugins
+//@   loop 3 modifies elems(cleared)
+//@   loop 3 invariant 0 <= idx + 1 && idx + 1 <= len(mntW(r))
+//@   loop 3 invariant (base(cleared) == base(entry(cleared)) || prefresh(cleared)) && sep(base(cleared), base(mounts)) && sep(base(cleared), base(mntD(r))) && sep(base(cleared), base(mntW(r))) && sep(base(cleared), base(add))
+//@   loop 3 invariant forall i int :: 0 <= i && i < len(cleared) ==> allocated(cleared[i]) && !has(del, cleared[i].Destination) && !has(mod, cleared[i].Destination)
+//@   loop 3 invariant forall j int :: 0 <= j && j <= idx && !has(del, mntW(r)[j].Destination) && !has(mod, mntW(r)[j].Destination) ==> inM(cleared, mntW(r)[j])
+//@   loop 3 invariant old(mntCons(r)) ==> mntCons(r)
+// loop 4: claim and append the sets
+//@   loop 4 modifies mapkey(r.owners, cid(r)), ledger(r).mounts, map(mntL(r)), reply(r).Mounts, elems(mntD(r))
+//@   loop 4 invariant 0 <= idx + 1 && idx + 1 <= len(add) && wfCreate(r) && cid(r) == old(cid(r)) && id == cid(r) && create == r.request.create
+//@   loop 4 invariant ledgerStep(r) && (pre(has(r.owners, cid(r))) && pre(mntL(r)) != nil ==> mntL(r) == pre(mntL(r)))
+//@   loop 4 invariant has(r.owners, cid(r)) && mntL(r) != nil && !(pre(has(r.owners, cid(r))) && pre(mntL(r)) == mntL(r)) ==> prefresh(mntL(r))
+//@   loop 4 invariant (base(mntD(r)) == pre(base(mntD(r))) || prefresh(mntD(r))) && sep(base(mntD(r)), base(add)) && sep(base(mntD(r)), base(mntW(r))) && sep(base(mntD(r)), base(mounts))
+//@   loop 4 invariant len(mntD(r)) == pre(len(mntD(r))) + idx + 1 && (forall k int :: 0 <= k && k < pre(len(mntD(r))) ==> mntD(r)[k] == pre(mntD(r)[k])) && (forall i int :: 0 <= i && i <= idx ==> mntD(r)[pre(len(mntD(r))) + i] == add[i])
+//@   loop 4 invariant forall p string :: pre(ownedM(r, p)) ==> ownedM(r, p) && mntL(r)[p] == pre(mntL(r)[p])
+//@   loop 4 invariant forall p string :: ownedM(r, p) && !pre(ownedM(r, p)) ==> mntL(r)[p] == plugin
+//@   loop 4 invariant old(mntCons(r)) ==> mntCons(r)
+//@   loop 4 invariant forall j int :: 0 <= j && j < len(mounts) && !markedK(mounts[j].Destination) && (exists i int :: 0 <= i && i <= idx && add[i] == mounts[j]) ==> inM(mntD(r), mounts[j])
+//@   loop 4 invariant forall i int :: 0 <= i && i <= idx ==> ownedM(r, add[i].Destination) && mntL(r)[add[i].Destination] == plugin && !pre(ownedM(r, add[i].Destination))
+// loop 5: forward the removal markers that have no set in this response (ranges over del)
+//@   loop 5 modifies reply(r).Mounts, elems(mntD(r))
+//@   loop 5 invariant wfCreate(r) && cid(r) == old(cid(r)) && create == r.request.create
+//@   loop 5 invariant (base(mntD(r)) == pre(base(mntD(r))) || prefresh(mntD(r))) && sep(base(mntD(r)), base(add)) && sep(base(mntD(r)), base(mntW(r))) && sep(base(mntD(r)), base(mounts))
+//@   loop 5 invariant len(mntD(r)) >= pre(len(mntD(r))) && (forall k int :: 0 <= k && k < pre(len(mntD(r))) ==> mntD(r)[k] == pre(mntD(r)[k]))
+//@   loop 5 invariant forall j string :: visited(j) ==> has(del, j)
+//@   loop 5 invariant forall k string :: visited(k) && !has(mod, k) ==> inM(mntD(r), del[k])
+//@   loop 5 invariant old(mntCons(r)) ==> mntCons(r)
+//@   loop 5 invariant forall j int :: 0 <= j && j < len(mounts) && !markedK(mounts[j].Destination) ==> inM(mntD(r), mounts[j])
+
 // ---- hooks: six lists, appended to the reply and to the view (generated by gen_hooks.py) ----
 //@ pure sepHookTargets(r *result) = sep(base(reply(r).Hooks.Prestart), base(reply(r).Hooks.Poststart))
 //@     && sep(base(reply(r).Hooks.Prestart), base(reply(r).Hooks.Poststop))
